@@ -339,6 +339,39 @@ class Extractor:
                 if len(cs) != 1:
                     raise Undecided("lost anchor: container `%s` of `%s` in %s: %d matches" % (csel, sel, rel, len(cs)))
                 within = cs[0]
+            if ent.get("macro_body"):
+                # T17: "sel": "function!(CidrMatch", "macro_body": {"qual", "wrap_prefix", "wrap_suffix"}: the last `{..}`
+                # block argument of the macro invocation (the body the macro pastes into `call`) is copied byte for byte
+                # and wrapped into a synthetic fn whose signature mirrors what the macro generates.
+                mb = ent["macro_body"]
+                k = masked.find(sel)
+                if k < 0 or masked.find(sel, k + 1) >= 0:
+                    raise Undecided("lost anchor: macro invocation `%s` in %s" % (sel, rel))
+                po = masked.index("(", k)
+                pc = rs.match_close(masked, po)
+                depth = 0
+                last_open = None
+                i2 = po + 1
+                while i2 < pc:
+                    ch = masked[i2]
+                    if ch == "{" and depth == 0:
+                        last_open = i2
+                        i2 = rs.match_close(masked, i2)
+                    elif ch in "([":
+                        i2 = rs.match_close(masked, i2)
+                    i2 += 1
+                if last_open is None:
+                    raise Undecided("macro invocation `%s` has no block argument" % sel)
+                bo, bc = last_open, rs.match_close(masked, last_open)
+                qual = mb["qual"]
+                self.functions.append(dict(name=qual, file=rel, line_start=self.line_of(txt, bo), line_end=self.line_of(txt, bc),
+                                           sha256=hashlib.sha256(txt[bo:bc + 1].encode()).hexdigest()))
+                self.transforms.add("T17")
+                ot = OText.synthetic(mb["wrap_prefix"] + "\n") + OText.from_src(txt, bo, bc + 1, fi) + OText.synthetic("\n" + mb["wrap_suffix"] + "\n")
+                ot = self.phase1(ot, strip_async, rewrites + ent.get("rewrites", []))
+                ot = self.phase2_fn(ot, qual)
+                out = out + OText.synthetic("\n") + ot + OText.synthetic("\n")
+                continue
             found = self.find(rel, sel, within=within)
             if found and ent.get("block"):
                 # T14: "block": {"from": <text of a line>, "to": <text of a later line>, "qual": name,
